@@ -30,7 +30,7 @@ mutual
       rw [eq_dict]; exact eqD_refl ok num none xs hx.1 hx.2
     | obj c xs =>
       simp only [comparable, Bool.and_eq_true] at hx
-      rw [eq_obj, eqD_refl ok num (some (env.fields c)) xs hx.1 hx.2]; simp
+      rw [eq_obj, eqD_refl ok num (objSh env c) xs hx.1 hx.2]; simp
   theorem eqList_refl (ok : EnvOk env) (num : Bool) (xs : List Val)
       (hx : comparableList env num xs = true) : eqList xs xs = true := by
     cases xs with
@@ -185,7 +185,7 @@ mutual
             obtain ⟨hcd, he⟩ := he
             subst hcd
             simp only [evalHash, evalHashList,
-              hashItems_congr ok hH num (some (env.fields c)) xs ys t1 t2 hx.1 hx.2 hy.1 hy.2 he hxs hys]
+              hashItems_congr ok hH num (objSh env c) xs ys t1 t2 hx.1 hx.2 hy.1 hy.2 he hxs hys]
       | _ => simp [eq] at he
   theorem hashList_congr (ok : EnvOk env) {H : PyHash} (hH : HashOk H) (num : Bool) (xs : List Val) :
       ∀ (ys : List Val) (txs tys : List HTerm), comparableList env num xs = true →
